@@ -27,6 +27,12 @@ def plain_msgs():
     return _msgs
 
 
+def long_msg(rng, n, uplink):
+    """UL / DL NAS TRANSPORT carrying an n-octet payload container (type 1, N1 SM information): a NAS message may be up
+    to 2^16 octets; 4096 octets is where a per-message block / word counter needs its second octet"""
+    return bytes([0x7e, 0x00, 0x67 if uplink else 0x68, 0x01]) + n.to_bytes(2, "big") + rng.bytes(n)
+
+
 def pick_msg(rng, short):
     ms = plain_msgs()
     if short:
